@@ -942,7 +942,39 @@ def check_mda_chain_point(ctx: Ctx) -> None:
     ctx.ob("9.6-linearization-point", con, ok, "the inner chain must be (re-)executed at that point when it is linearised: after a cache hit of the MDA chain, or a request at an earlier point, the inner disciplines hold the data of ANOTHER point and execute=False returns the blocks of that point", node=lin[0], stmt="mdo_chain.linearize executes at the requested point")
 
 
+def check_operator_products(ctx: Ctx) -> None:
+    """9.7: the chain rule composes blocks with ``@``; for matrix-free blocks (JacobianOperator) the product is built by
+    ``__matmul__`` / ``__rmatmul__``: ``A @ B`` is the composition with A on the left, whichever of the two methods
+    Python dispatches to (reverse_chain_rule calls ``new_jac.__rmatmul__(curr_jac)`` for ``curr_jac @ new_jac``)."""
+    jop = "core/derivatives/jacobian_operator.py"
+    n = 0
+    for meth, left_is_self in (("__matmul__", True), ("__rmatmul__", False)):
+        f = ctx.index.method(jop, "JacobianOperator", meth)
+        other = f.args.args[1].arg
+        want = ["self", other] if left_is_self else [other, "self"]
+        for r in [s_ for s_ in stmts_of(f) if isinstance(s_, ast.Return)]:
+            for v in unfolded(f, r, get=lambda s_: s_.value) or [r.value]:
+                n += 1
+                ok = isinstance(v, ast.Call) and [dotted(a_) for a_ in v.args[:2]] == want and not v.keywords
+                ctx.ob("9.7-operator-product", cname(jop, "JacobianOperator", meth), ok, f"{meth}(self, {other}) must build the product with operands ({', '.join(want)}) in that order (left factor first): swapped, the chain rule of two matrix-free blocks is dB.dA instead of dA.dB", node=r, stmt=f"{meth}: {norm_stmt(r, 70)}")
+    ctx.floor("9.7-operator-product", 4)
+    # the composed operator applies the right factor first: (A B) x = A (B x)
+    for cls in ctx.index.module(jop).classes.values():
+        if not cls.name.startswith("_ComposedOperation"):
+            continue
+        mv = cls.methods.get("_matvec") or cls.methods.get("_matmat")
+        if mv is None:
+            continue
+        rets = [s_ for s_ in stmts_of(mv) if isinstance(s_, ast.Return) and s_.value is not None]
+        for r in rets:
+            txt = norm_stmt(r.value, 200)
+            i1, i2 = txt.find("_operand_1"), txt.find("_operand_2")
+            ok = i1 != -1 and i2 != -1 and i1 < i2
+            ctx.ob("9.7-operator-product", cname(jop, cls.name, mv.name), ok, f"the product applies its right operand first and its left operand to the result (found `{txt}`)", node=r, stmt=f"{cls.name}: left(right(x))")
+
+
 def run(ctx: Ctx) -> None:
+    check_operator_products(ctx)
     check_mda_chain_point(ctx)
     check_reverse_chain_rule(ctx)
     check_compute_jacobian(ctx)
